@@ -1,6 +1,7 @@
 import GormModel.Drv.Util
 import GormModel.Model.Hooks
 import GormModel.Gen.Pipelines
+import GormModel.Gen.Finishers
 open Lean
 namespace Gorm.Drv
 
@@ -18,6 +19,22 @@ def handleC13 (op : String) (args : Array Json) : Option Json := do
     let n ← jNat? (arg args 3)
     let p ← Gen.pipelines.find? (fun p => p.1 = k)
     some (Json.arr ((opEvents Gen.handlers p.2 (fun h => hs.contains h) n).map hevJ).toArray)
+  | "hooks.compound" =>
+    -- ["hooks.compound", finisher, [implemented hooks], n, batchSize (0 = not batched)] -> the event lists of
+    -- every run (control-flow path) of the finisher over n top-level records
+    let fn ← jStr? (arg args 1)
+    let hsJ ← jArr? (arg args 2)
+    let hs ← hsJ.toList.mapM jStr?
+    let n ← jNat? (arg args 3)
+    let b ← jNat? (arg args 4)
+    let batches := if b = 0 then [] else batchRanges n b
+    let runs := (runsOf Gen.finishers skipHookFinishers 4 false fn).eraseDups
+    some (Json.arr (runs.map (fun run =>
+      Json.arr ((compoundEvents Gen.pipelines Gen.handlers (fun h => hs.contains h) run n batches).map hevJ).toArray)).toArray)
+  | "hooks.batches" =>
+    let n ← jNat? (arg args 1)
+    let b ← jNat? (arg args 2)
+    some (Json.arr ((batchRanges n b).map (fun r => natJ (r.2 - r.1))).toArray)
   | _ => none
 
 end Gorm.Drv
